@@ -250,9 +250,15 @@ func (h *httpServer) checkIPWhitelist(addr string) bool {
 	if ip.IsLoopback() {
 		return true
 	}
-	whitelist := h.cfg.GetModuleConfig().RPC.Whitelist
-	// "*" means allow all IPs, consistent with rpc.InitIPWhitelist
-	if len(whitelist) == 0 || (len(whitelist) == 1 && whitelist[0] == "*") {
+	rpcCfg := h.cfg.GetModuleConfig().RPC
+	// both config keys are accepted, consistent with rpc.InitIPWhitelist
+	whitelist := rpcCfg.Whitelist
+	if len(whitelist) == 0 {
+		whitelist = rpcCfg.Whitlist
+	}
+	// "*" means allow all IPs
+	if len(whitelist) == 0 || (len(rpcCfg.Whitelist) == 1 && rpcCfg.Whitelist[0] == "*") ||
+		(len(rpcCfg.Whitlist) == 1 && rpcCfg.Whitlist[0] == "*") {
 		return true
 	}
 	ipv4 := ip.To4()
